@@ -193,6 +193,9 @@ def norm_inst(inst):
         q["joinports"] = sorted((q.get("joins") or {}).keys())
         q.setdefault("cores", 1)
         if q["kind"] == "concat": q["item"] = path_id(q.get("arg", ""))      # the one file the component emits
+        if q["kind"] == "splitter":      # only directly behind a file source (one-line files): lines // n full parts and the trailing (possibly empty) one
+            n = int(q.get("arg") or 1)
+            q["nparts"] = 1 // n + 1
         q["ins"] = sorted(q["ins"]); q["params"] = sorted(q["params"])
         procs.append(q)
     i["procs"] = procs
@@ -419,10 +422,14 @@ def normalize_flow(events, inst, end):
     finished = set()
     relays = {p["name"]: p["params"][0] for p in inst["procs"] if p["kind"] == "pcomb" and len(p["params"]) == 1}
     combs = {p["name"] for p in inst["procs"] if (p["kind"] == "pcomb" and len(p["params"]) >= 2) or p["kind"] == "fcomb"}
-    passes = {p["name"] for p in inst["procs"] if p["kind"] == "maptotags"}
+    passes = {p["name"] for p in inst["procs"] if p["kind"] in ("maptotags", "splitter")}
+    splitters = {p["name"] for p in inst["procs"] if p["kind"] == "splitter"}
+    def pass_in(m): return m + (".file" if m in splitters else ".in")
+    def pass_out(m): return m + (".split_file" if m in splitters else ".out")
+    def pass_base(m, item): return item.split(".txt.split_")[0] if m in splitters else item      # the received item behind a forwarded one
     cats = {p["name"] for p in inst["procs"] if p["kind"] == "concat"}       # collect-then-emit-one-file components: relays without hooks
     for m in passes:
-        emit_outs.add(m + ".out")
+        emit_outs.add(pass_out(m))
     pass_seen = {m: set() for m in passes}
     for r, port in relays.items():
         emit_outs.add("%s.%s>" % (r, port))
@@ -459,10 +466,10 @@ def normalize_flow(events, inst, end):
             if e.endswith(".begin") and ev["to"] in relay_in:
                 relay_got[relay_in[ev["to"]]].append(item)
             pproc = frm.rsplit(".", 1)[0]
-            if pproc in passes and e.endswith(".begin") and item not in pass_seen[pproc]:
-                # pass-through component without hooks: it received the item it now forwards
-                pass_seen[pproc].add(item)
-                out.append(dict(e="relay.recv", proc=pproc, port=pproc + ".in", closed=False, item=item))
+            if pproc in passes and e.endswith(".begin") and pass_base(pproc, item) not in pass_seen[pproc]:
+                # pass-through component without hooks: it received the item it now forwards (a splitter: the item whose first part it forwards)
+                pass_seen[pproc].add(pass_base(pproc, item))
+                out.append(dict(e="relay.recv", proc=pproc, port=pass_in(pproc), closed=False, item=pass_base(pproc, item)))
             rproc = frm[:-1].rsplit(".", 1)[0] if frm.endswith(">") else (frm.rsplit(".", 1)[0] if frm.rsplit(".", 1)[0] in cats else None)
             if rproc in relay_got and rproc not in relay_started:
                 # the component has no hooks: its receives are reconstructed (single upstream, channel order = send order)
@@ -482,7 +489,7 @@ def normalize_flow(events, inst, end):
                     out.append(dict(e="relay.recv", proc=rproc, port=port, closed=False, item=it))
                 out.append(dict(e="relay.recv", proc=rproc, port=port, closed=True, item=""))
             if frm in emit_outs and frm not in finished and frm.rsplit(".", 1)[0] in passes:
-                out.append(dict(e="relay.recv", proc=frm.rsplit(".", 1)[0], port=frm.rsplit(".", 1)[0] + ".in", closed=True, item=""))
+                out.append(dict(e="relay.recv", proc=frm.rsplit(".", 1)[0], port=pass_in(frm.rsplit(".", 1)[0]), closed=True, item=""))
             if frm in emit_outs and frm not in finished:
                 finished.add(frm)
                 out.append(dict(e="em.finish", **{"from": frm}))
